@@ -31,4 +31,5 @@ func InstallApps(ch *kit.Chain) { InstallAppsOn(ch.Sim) }
 func InstallAppsOn(app *simapp.SimApp) {
 	app.MockModuleV2A.IBCApp.OnRecvPacket = distinctAckApp("aa-app-A")
 	app.MockModuleV2B.IBCApp.OnRecvPacket = distinctAckApp("zz-app-B")
+	app.IBCMockModule.IBCApp.OnRecvPacket = rawAckApp
 }
